@@ -8,6 +8,7 @@ import (
 	"fmt"
 	"io"
 	"os"
+	"strings"
 	"sync"
 	"sync/atomic"
 	"time"
@@ -458,7 +459,19 @@ type node struct {
 }
 
 func newNode(f *memtpt.Fabric, k *sectest.Key, sec, ip, kind string) *node {
-	n := &node{key: k, rm: newRcmgr()}
+	return newNodeRM(f, k, sec, ip, kind, nil)
+}
+
+func newNodeRM(f *memtpt.Fabric, k *sectest.Key, sec, ip, kind string, rm network.ResourceManager) *node {
+	n := &node{key: k}
+	if rm != nil {
+		n.rm = rm
+	} else if strings.HasSuffix(kind, "/no-rcmgr") {
+		kind = strings.TrimSuffix(kind, "/no-rcmgr")
+		n.rm = &network.NullResourceManager{}
+	} else {
+		n.rm = newRcmgr()
+	}
 	ps, err := pstoremem.NewPeerstore()
 	if err != nil {
 		panic(err)
